@@ -11,7 +11,7 @@ Local Open Scope Z_scope.
 
 Definition range_only (c : cfg) : Prop :=
   (forall f, trig_of c f = notrig) /\ threshold c = 0%N /\ caller_filter c = false /\ fmode_in c = false
-  /\ plt_free_all c.
+  /\ plt_free_all c /\ loc_free_all c.
 
 (* the window as the manual states it *)
 Definition in_window (c : cfg) (t : N) : bool :=
@@ -160,14 +160,14 @@ Lemma visible_step c s r : range_only c -> RI c s -> dcons (stack_count s) [r] -
   exists s' d, std_step c s r = (s', [mkev (is_exit r) r d]) /\ RI c s'
                /\ stack_count s' = stack_count s + (match r_type r with ENTRY => 1 | EXIT => -1 end).
 Proof.
-  intros (Htr & Hthr & Hcl & Hfm & Hp) (Hs & He & Ho & Hf & Hb & Ha) D Hd.
+  intros (Htr & Hthr & Hcl & Hfm & Hp & Hlf) (Hs & He & Ho & Hf & Hb & Ha) D Hd.
   destruct s as [b a i o fd en dd ds stt]. cbn [started enabled outc fdepth below above] in *. subst stt en o.
   unfold stack_count in *. cbn [below] in *.
   unfold std_step, std_body, consume, is_exit. cbn [started]. cbn [dcons] in D.
   destruct (r_type r) eqn:Hr.
   - destruct D as [Hdep _].
     unfold fstack_entry, set_stacks, top_above, update_entry, set_disp, stack_count. zs.
-    rewrite (Htr (r_fn r)), Hfm. cbn [notrig q_filter q_depth q_trace_on q_trace_off q_hide negb andb orb].
+    rewrite (Htr (r_fn r)), Hfm, (loc_free_hidden c _ Hlf). cbn [notrig q_filter q_depth q_trace_on q_trace_off q_hide negb andb orb].
     replace (0 >? 0) with false by reflexivity. cbn iota.
     replace (fd <=? 0) with false by lia. cbn [orb negb]. rewrite (Hp (r_fn r)).
     eexists _, _. split; [reflexivity|]. unfold RI, stack_count. zs.
@@ -225,7 +225,7 @@ Theorem range_replay c rs : range_only c -> sorted rs -> dcons 0 rs ->
   Forall (fun r => r_depth r < gdepth c) rs ->
   map ob_rt (run_rp c rs) = map shown_rec (window c rs).
 Proof.
-  intros Hro S D Hd. pose proof Hro as (_ & _ & _ & _ & Hp).
+  intros Hro S D Hd. pose proof Hro as (_ & _ & _ & _ & Hp & _).
   rewrite rp_eq_std_stream; [apply range_std; assumption|exact Hp|].
   rewrite (pre_is_window c rs Hro). apply window_dcons0; assumption.
 Qed.
@@ -234,7 +234,7 @@ Theorem range_script c rs : range_only c -> sorted rs -> dcons 0 rs ->
   Forall (fun r => r_depth r < gdepth c) rs ->
   map ob_rt (run_script c rs) = map shown_rec (window c rs).
 Proof.
-  intros Hro S D Hd. pose proof Hro as (_ & _ & _ & _ & Hp).
+  intros Hro S D Hd. pose proof Hro as (_ & _ & _ & _ & Hp & _).
   rewrite script_eq_std by exact Hp. apply range_std; assumption.
 Qed.
 
@@ -352,7 +352,7 @@ Example hyps_range : range_only c_range /\ sorted (flats 0 f_range)
         (true, 1%N, 1, 1500%N); (false, 4%N, 1, 1600%N)].
 Proof.
   split; [|split; [apply sortedb_sorted; reflexivity|split; [|reflexivity]]].
-  - unfold range_only. repeat split; try reflexivity; apply libcall_plt_free; reflexivity.
+  - unfold range_only, loc_free_all. repeat split; try reflexivity; apply libcall_plt_free; reflexivity.
   - cbn. repeat constructor.
 Qed.
 
